@@ -104,7 +104,7 @@ def spec_c07(ctx, case, x):
                     obs_nodes.append(p)
                     if pasg.get(vm) != asg[vm] or pw != w:
                         what = (nodes[i]["id"], f"{vm}:{kind}", exp, [nodes[p]["id"]])
-                        bad.append(("wrong-object-after-narrowing" if vm not in pasg else "wrong-variant", what))
+                        bad.append(("producer-of-another-object" if vm not in pasg else "wrong-variant", what))
             if sorted(set(obs_names)) != exp:
                 missing = sorted(set(exp) - set(obs_names))
                 spurious = sorted(set(obs_names) - set(exp))
@@ -151,11 +151,6 @@ def classify(case, x, key, what):
     """map an observed deviation to the key of a known input class where it belongs to one"""
     if c06.double_clone(x):
         return "double-clone"
-    if key in ("missing-dependency", "missing-test") and len(case["nets"]) > 1:
-        first = case["nets"][0]
-        r = case["suite"]["nets"].get(first.split(".")[-1], {}) if case.get("suite") else {}
-        if r:
-            return "missing-producer:vm-variant-excluded-by-first-worker"
     return key
 
 
@@ -203,7 +198,6 @@ def run_cases(ctx, cases):
         devs = spec_c07(ctx, case, x)
         for key, what in devs[:6]:
             k = classify(case, x, key, what)
-            ctx.count("violation." + k)
             ctx.violate(k, f"{key}: (child, object, expected parents, observed parents) = {what}", dict(case))
         # resolver
         rn, re_, rooted, dup = gl.canon_real(x)
@@ -248,11 +242,11 @@ def correspondence(ctx):
         cases = c06.gen_cases(rng, n_suites, per_suite, "large" if thorough else "small", lazy_share=0.25)
         for c in cases:
             c.pop("order", None)          # complete lazy expansion (partial expansions belong to C09)
-        for i in range(0, len(cases), 4):
+        for i, case in enumerate(cases):
             if ctx.remaining(budget) < 0:
                 ctx.notes.append(f"time budget: stopped after {i} of {len(cases)} cases")
                 break
-            run_cases(ctx, cases[i:i + 4])
+            gl.run_attributed(ctx, case, lambda c, k: run_cases(c, [k]))
     finally:
         gl.cleanup()
 
